@@ -37,7 +37,7 @@ def prepare(tier):
 
 @st.composite
 def pipeline_case(draw):
-    case = draw(c01.case_strategy())
+    case = draw(c01.case_strategy(allow_rle=True))
     if case["matcher"] is not None:
         kind = draw(st.sampled_from(["naive", "naive_m2o", "merge"]))
         case["matcher"]["kind"] = "merge" if kind == "merge" else "naive"
